@@ -426,6 +426,9 @@ class DCM(np.ndarray):
                 array = DCM.from_axisangle(DCM, np.array(ax), ang)
         _assert_numerical_iterable(array, "Direction Cosine Matrix")
         _assert_SO3(array, "Direction Cosine Matrix")
+        # The array is used as the memory buffer of the new object: it must hold
+        # floats in C order (integer, transposed or strided inputs are copied)
+        array = np.ascontiguousarray(array, dtype=float)
         # Create the ndarray instance of type DCM. This will call the standard
         # ndarray constructor, but return an object of type DCM.
         obj = super(DCM, subtype).__new__(subtype, array.shape, float, array)
